@@ -37,7 +37,7 @@ def gen_case(rng):
     if stoch:
         for tj in trajs: tj["times"] = list(trajs[0]["times"])       # the stochastic likelihood is exercised on one common grid
     return {"meas": meas, "p": p, "trajs": trajs, "thetas": thetas, "seed": rng.randint(1, 2**31), "stochastic": stoch,
-            "variant": "incremental" if rng.random() < 0.3 else "at_once"}
+            "variant": rng.choice(["incremental", "incremental", "with_rule", "with_rule", "with_rule", "at_once", "at_once", "at_once", "at_once", "at_once"])}
 
 def gen_cases(seed, tier):
     rng = random.Random(seed * 4001 + 15); n = 60 if tier == "quick" else 800
@@ -45,6 +45,13 @@ def gen_cases(seed, tier):
 
 def _model(variant="at_once", reference=False):
     from bioscrape.types import Model
+    if variant == "with_rule":
+        # the same network with a repeated assignment rule on an extra species: models with rules take another path through the
+        # deterministic simulator (a private parameter copy) -- seeded change S6_C15
+        return Model(species=["A", "B", "C", "Rr"], reactions=[(["A"], ["B"], "massaction", {"k": "k1"}), (["B"], ["C"], "massaction", {"k": "k2"}),
+                                                               (["A", "C"], ["A"], "massaction", {"k": "k3"})],
+                     parameters=[("k1", 0.6), ("k2", 0.3), ("k3", 0.05)], rules=[("assignment", {"equation": "Rr = A + 2*B"})],
+                     initial_condition_dict={"A": 5.0, "B": 1.0, "C": 0.5, "Rr": 0.0})
     if variant == "incremental" and not reference:
         # built step by step and never initialised before it is handed over: species C has never been given a value (it is 0 once the
         # model is initialised), and the per-trajectory initial conditions may omit it  (seeded change S3_C15)
